@@ -24,9 +24,11 @@ only as `rowWF r = true` or `s.inv = true`.
 * §4 `put_frame`, `put_rows_origin`.
 * §5 `put_keep_eq_blank` (+ the counterexample `put_keep_ne_blank_example` showing its extra
   hypothesis is needed).
-* invariant: `put_blank_inv`, `put_keep_inv_off_cont`, `put_keep_inv_narrow`.
+* invariant: `put_blank_inv`, `put_keep_inv_off_cont`, `put_keep_inv` (every width; the earlier
+  `put_keep_inv_narrow` is kept as a corollary).
 * §6 span policy on a continuation cell: `Row.putKeep_cell`, `Row.putKeep_kept`,
-  `Row.putKeep_wf` (widths ≤ 2; fails for width 3: `putKeep_width3_not_wf_example`),
+  `Row.putKeep_text`, `Row.putKeep_length`, `Row.putKeep_wf` — all for characters of every width
+  (examples with width 3: `putKeep_width3_wf_example`, `putKeep_kept_width3_example`),
   `put_keep_on_cont`.
 
 `effW s w0` / `effText s text w0` are the width and bytes really used: `max w0 1` and `text`,
@@ -1504,236 +1506,6 @@ theorem put_keep_inv_off_cont (s : Scr) (text : Bytes) (w0 : Nat) (hinv : s.inv 
   rw [put_keep_eq_blank s text w0 hinv h h2]; exact put_blank_inv s text w0 hinv
 
 /-! ## 6. Span policy on a continuation cell: `Row.putKeep` -/
-
-/-- the cell is the first cell of a character wider than one cell -/
-def isWideHead : Option Cell → Bool
-  | some ⟨.ch _ cw, _⟩ => decide (cw > 1)
-  | _ => false
-
-namespace Lemmas
-
-theorem length_fixTail (r : Row) (st : Style) : (fixTail r st).length = r.length := by
-  unfold fixTail
-  split
-  · next heq =>
-    split
-    · rw [List.getLast?_eq_getElem?] at heq
-      have := getElem?_lt heq
-      simp [List.length_dropLast]; omega
-    · rfl
-  · rfl
-
-theorem getElem?_fixTail (r : Row) (st : Style) (i : Nat) :
-    (fixTail r st)[i]? =
-      if i + 1 = r.length ∧ isWideHead r[i]? = true then some (blank st) else r[i]? := by
-  unfold fixTail
-  rw [List.getLast?_eq_getElem?]
-  split
-  · next t cw s' heq =>
-    have hl := getElem?_lt heq
-    split
-    · next hcw =>
-      by_cases hi : i + 1 = r.length
-      · have e : i = r.length - 1 := by omega
-        rw [if_pos, List.getElem?_append_right (by simp [List.length_dropLast]; omega)]
-        · simp [List.length_dropLast, e]
-        · refine ⟨hi, ?_⟩
-          rw [e, heq]; simp [isWideHead, hcw]
-      · rw [if_neg (fun h => hi h.1)]
-        by_cases hi2 : i < r.length
-        · rw [List.getElem?_append_left (by simp [List.length_dropLast]; omega),
-            List.getElem?_dropLast, if_pos (by omega)]
-        · rw [List.getElem?_eq_none (by simp [List.length_dropLast]; omega),
-            List.getElem?_eq_none (by omega)]
-    · next hcw =>
-      rw [if_neg]
-      intro ⟨hi, hwd⟩
-      have e : i = r.length - 1 := by omega
-      rw [e, heq] at hwd
-      simp [isWideHead, hcw] at hwd
-  · next hne =>
-    rw [if_neg]
-    intro ⟨hi, hwd⟩
-    have e : i = r.length - 1 := by omega
-    rw [e] at hwd
-    cases hc : r[r.length - 1]? with
-    | none => rw [hc] at hwd; simp [isWideHead] at hwd
-    | some c =>
-      obtain ⟨g, s'⟩ := c
-      cases g with
-      | cont => rw [hc] at hwd; simp [isWideHead] at hwd
-      | ch t cw => exact hne t cw s' hc
-
-theorem putKeep_eq (r : Row) (x : Nat) (text : Bytes) (w : Nat) (st : Style) :
-    Row.putKeep r x text w st =
-      fixTail (((fixAt r (x + w) st).take (headOf r x + widthAt r (headOf r x)) ++
-        charCells text w st ++ (fixAt r (x + w) st).drop (x + w)).take r.length) st := rfl
-
-/-- `Row.putKeep` cell by cell, in terms of the row `r1` left by blanking the character cut by
-    column `x + w` -/
-theorem getElem?_putKeep (r : Row) (x : Nat) (text : Bytes) (w : Nat) (st : Style)
-    (he : headOf r x + widthAt r (headOf r x) ≤ r.length)
-    (hxe : x ≤ headOf r x + widthAt r (headOf r x)) (hw : 1 ≤ w) (i : Nat) (hi : i < r.length) :
-    (Row.putKeep r x text w st)[i]? =
-      (let e := headOf r x + widthAt r (headOf r x)
-       let v := if i < e then (fixAt r (x + w) st)[i]?
-                else if i = e then some ⟨.ch text w, st⟩
-                else if i < e + w then some ⟨.cont, st⟩
-                else (fixAt r (x + w) st)[i - e - w + (x + w)]?
-       if i + 1 = r.length ∧ isWideHead v = true then some (blank st) else v) := by
-  rw [putKeep_eq, getElem?_fixTail]
-  generalize hee : headOf r x + widthAt r (headOf r x) = e at he hxe
-  have hl1 : (fixAt r (x + w) st).length = r.length := length_fixAt _ _ _
-  generalize fixAt r (x + w) st = r1 at hl1
-  have hlen : (List.take r.length (List.take e r1 ++ charCells text w st ++ List.drop (x + w) r1)).length
-      = r.length := by
-    simp only [List.length_take, List.length_append, List.length_drop, length_charCells _ _ _ hw, hl1]
-    omega
-  have hget : (List.take r.length (List.take e r1 ++ charCells text w st ++ List.drop (x + w) r1))[i]? =
-      if i < e then r1[i]?
-      else if i = e then some ⟨.ch text w, st⟩
-      else if i < e + w then some ⟨.cont, st⟩
-      else r1[i - e - w + (x + w)]? := by
-    rw [List.getElem?_take, if_pos hi]
-    have hte : (List.take e r1).length = e := by rw [List.length_take, hl1]; omega
-    by_cases h1 : i < e
-    · rw [if_pos h1, List.getElem?_append_left (by rw [List.length_append, hte]; omega),
-        List.getElem?_append_left (by omega), List.getElem?_take, if_pos h1]
-    · rw [if_neg h1]
-      by_cases h2 : i < e + w
-      · rw [List.getElem?_append_left
-            (by rw [List.length_append, hte, length_charCells _ _ _ hw]; omega),
-          List.getElem?_append_right (by omega), hte, getElem?_charCells _ _ _ _ (by omega)]
-        by_cases h3 : i = e
-        · rw [if_pos h3, if_pos (by omega)]
-        · rw [if_neg h3, if_pos h2, if_neg (by omega)]
-      · rw [if_neg (by omega), if_neg h2,
-          List.getElem?_append_right
-            (by rw [List.length_append, hte, length_charCells _ _ _ hw]; omega),
-          List.length_append, hte, length_charCells _ _ _ hw, List.getElem?_drop]
-        congr 1; omega
-  rw [hlen, hget]
-
-end Lemmas
-
-theorem Row.putKeep_length (r : Row) (x : Nat) (text : Bytes) (w : Nat) (st : Style)
-    (hwf : rowWF r = true) (hc : contAt r x = true) (hw : 1 ≤ w) :
-    (Row.putKeep r x text w st).length = r.length := by
-  obtain ⟨t, wd, s', hch, _, hx, hlen, hwd⟩ := wf_head hwf (contAt_lt hc)
-  rw [putKeep_eq, length_fixTail]
-  simp only [List.length_take, List.length_append, List.length_drop, length_charCells _ _ _ hw,
-    length_fixAt, hwd]
-  omega
-
-/-- **C03 (6), span policy on a continuation cell, cell by cell.** Let `e` be the first column
-    after the wide character under the cursor and `src` the old row with the wide character cut
-    by column `x + w` (if any) blanked. Then the new row is: `src` up to column `e` (so the wide
-    character under the cursor is kept unless it is itself the one cut by `x + w`, which needs
-    width ≥ 3), the text at `e … e+w-1`, then `src` from column `x + w` on, shifted right by
-    `e - x`; the row is cut back to its length and, if the last remaining cell is the head of a
-    wide character, that cell becomes a blank. -/
-theorem Row.putKeep_cell (r : Row) (x : Nat) (text : Bytes) (w : Nat) (st : Style)
-    (hwf : rowWF r = true) (hc : contAt r x = true) (hw : 1 ≤ w) (i : Nat) (hi : i < r.length) :
-    (Row.putKeep r x text w st)[i]? =
-      (let e := headOf r x + widthAt r (headOf r x)
-       let src := fun j => if cutBy r j (x + w) then some (blank st) else r[j]?
-       let v := if i < e then src i
-                else if i = e then some ⟨.ch text w, st⟩
-                else if i < e + w then some ⟨.cont, st⟩
-                else src (i - (e - x))
-       if i + 1 = r.length ∧ isWideHead v = true then some (blank st) else v) := by
-  obtain ⟨t, wd, s', hch, _, hx, hlen, hwd⟩ := wf_head hwf (contAt_lt hc)
-  have hle := headOf_le r x
-  rw [getElem?_putKeep r x text w st (by rw [hwd]; exact hlen) (by rw [hwd]; omega) hw i hi]
-  have hsrc : ∀ j, j < r.length →
-      (fixAt r (x + w) st)[j]? = if cutBy r j (x + w) then some (blank st) else r[j]? := by
-    intro j hj
-    rw [getElem?_fixAt hj]
-    by_cases hcb : cutBy r j (x + w)
-    · rw [if_pos hcb, if_pos ((inChar_iff_cutBy hwf hj).2 hcb)]
-    · rw [if_neg hcb, if_neg (fun h => hcb ((inChar_iff_cutBy hwf hj).1 h))]
-  simp only [hwd]
-  by_cases h1 : i < headOf r x + wd
-  · simp only [if_pos h1, hsrc i hi]
-  · simp only [if_neg h1]
-    by_cases h2 : i = headOf r x + wd
-    · simp only [if_pos h2]
-    · simp only [if_neg h2]
-      by_cases h3 : i < headOf r x + wd + w
-      · simp only [if_pos h3]
-      · simp only [if_neg h3]
-        have e1 : i - (headOf r x + wd) - w + (x + w) = i - (headOf r x + wd - x) := by omega
-        rw [e1, hsrc _ (by omega)]
-
-/-- (6) in the usual situation (the wide character under the cursor ends at or before column
-    `x + w`, always true for a double-width character): it is kept, and so is everything to
-    its left. -/
-theorem Row.putKeep_kept (r : Row) (x : Nat) (text : Bytes) (w : Nat) (st : Style)
-    (hwf : rowWF r = true) (hc : contAt r x = true) (hw : 1 ≤ w)
-    (he : headOf r x + widthAt r (headOf r x) ≤ x + w) (i : Nat)
-    (hi : i < headOf r x + widthAt r (headOf r x)) :
-    (Row.putKeep r x text w st)[i]? = r[i]? := by
-  obtain ⟨t, wd, s', hch, hwd1, hx, hlen, hwd⟩ := wf_head hwf (contAt_lt hc)
-  obtain ⟨_, _, hcs, hend⟩ := wf_ch hwf hch
-  have hle := headOf_le r x
-  have hil : i < r.length := by omega
-  rw [Row.putKeep_cell r x text w st hwf hc hw i hil]
-  simp only [if_pos hi]
-  rw [hwd] at hi he
-  have hnc : ¬ cutBy r i (x + w) := by
-    intro ⟨c1, c2⟩
-    obtain ⟨t2, w2, s2, hch2, _, _, _, hw2⟩ := wf_head hwf hil
-    rw [hw2] at c2
-    obtain ⟨_, _, hcs2, _⟩ := wf_ch hwf hch2
-    have := hcs2 (headOf r x + wd) (by have := headOf_le r i; omega) (by omega)
-    rw [this] at hend; cases hend
-  rw [if_neg hnc, if_neg]
-  intro ⟨h1, h2⟩
-  -- the last cell of the row is then a continuation cell of the kept character
-  have hne : headOf r x ≠ x := by
-    intro e
-    have := contAt_ch hch
-    rw [e, hc] at this; cases this
-  have : contAt r i = true := hcs i (by omega) (by omega)
-  obtain ⟨s3, hs3⟩ := contAt_iff.1 this
-  rw [hs3] at h2
-  simp [isWideHead] at h2
-
-/-- (6) at screen level: under the span policy, with the cursor on a continuation cell and room
-    for the character after the cursor column, the cursor row becomes `Row.putKeep …` and the
-    cursor goes to the column after the inserted text (`e + w`, where `e` is the first column
-    after the kept wide character), wrapping or clamping at the right edge like in section 2. -/
-theorem put_keep_on_cont (s : Scr) (text : Bytes) (w0 : Nat) (hinv : s.inv = true)
-    (hc : contAt (s.row s.cy) s.cx = true) (hfit : s.cx + effW s w0 ≤ s.w) :
-    Scr.put .keep s text w0 =
-      (let e := headOf (s.row s.cy) s.cx + widthAt (s.row s.cy) (headOf (s.row s.cy) s.cx)
-       let s1 : Scr :=
-         { s with grid := s.grid.set s.cy
-                    (Row.putKeep (s.row s.cy) s.cx (effText s text w0) (effW s w0) s.sty) }
-       if e + effW s w0 < s.w then { s1 with cx := e + effW s w0 }
-       else if s.wrap then ({ s1 with cx := e + effW s w0 - s.w } : Scr).lineDown
-       else { s1 with cx := s.w - 1 }) := by
-  obtain ⟨_, _, hg, hrows, _, hcy, _⟩ := (inv_iff s).1 hinv
-  have hwf := (hrows _ (row_mem s s.cy (by omega))).2
-  obtain ⟨t, wd, s', hch, hwd1, hx, hlen, hwd⟩ := wf_head hwf (contAt_lt hc)
-  have hle := headOf_le (s.row s.cy) s.cx
-  rw [put_eq_putAt_fit _ s text w0 hfit, putAt_eq_finish]
-  have e1 : putAtRow .keep s (effText s text w0) (effW s w0) =
-      Row.putKeep (s.row s.cy) s.cx (effText s text w0) (effW s w0) s.sty := by
-    simp [putAtRow, hc]
-  have e2 : putAtX .keep s (effW s w0) =
-      headOf (s.row s.cy) s.cx + widthAt (s.row s.cy) (headOf (s.row s.cy) s.cx) + effW s w0 := by
-    simp only [putAtX, hc, Bool.true_and, beq_self_eq_true, if_true, hwd]
-    omega
-  rw [e1, e2]
-  rfl
-
-/-! ### `Row.putKeep` keeps the row well formed when no character is wider than 2 cells -/
-
-/-- no character of the row is wider than two cells (true of every reachable row when the width
-    function never returns more than 2, as for the Unicode East-Asian-width tables) -/
-def narrow (r : Row) : Prop := ∀ c ∈ r, ∀ t cw, c.g = .ch t cw → cw ≤ 2
-
 namespace Lemmas
 
 theorem contAt_append (a b : Row) (j : Nat) :
@@ -1846,23 +1618,6 @@ theorem wf_charCells (text : Bytes) (w : Nat) (st : Style) (hw : 1 ≤ w) :
       · exact contAt_ge (by omega)
     · rw [if_neg h0] at hi; simp at hi
 
-theorem fixTail_of_wf {r : Row} (hwf : rowWF r = true) (st : Style) : fixTail r st = r := by
-  unfold fixTail
-  split
-  · next t cw s' heq =>
-    rw [List.getLast?_eq_getElem?] at heq
-    have hl := getElem?_lt heq
-    obtain ⟨_, p2, _, _⟩ := wf_ch hwf heq
-    rw [if_neg (by omega)]
-  · rfl
-
-theorem narrow_of_mem {r r' : Row} (hn : narrow r) (st : Style)
-    (h : ∀ c ∈ r', c ∈ r ∨ c = blank st) : narrow r' := by
-  intro c hc t cw hg
-  rcases h c hc with h | h
-  · exact hn c h t cw hg
-  · rw [h] at hg; simp [blank] at hg; omega
-
 theorem fixAt_mem (r : Row) (c : Nat) (st : Style) (x : Cell) (h : x ∈ fixAt r c st) :
     x ∈ r ∨ x = blank st := by
   obtain ⟨i, hi⟩ := List.mem_iff_getElem?.1 h
@@ -1872,99 +1627,295 @@ theorem fixAt_mem (r : Row) (c : Nat) (st : Style) (x : Cell) (h : x ∈ fixAt r
   · right; simpa using hi.symm
   · left; exact List.mem_iff_getElem?.2 ⟨i, hi⟩
 
-theorem narrow_head {r : Row} (hn : narrow r) {i : Nat} {t : Bytes} {cw : Nat} {s : Style}
-    (h : r[i]? = some ⟨.ch t cw, s⟩) : cw ≤ 2 :=
-  hn _ (List.mem_iff_getElem?.2 ⟨i, h⟩) t cw rfl
+/-- the row spliced by `Row.putKeep` before it is cut back to the row length: the old row up to
+    the end of the kept character, the new character, and the old row from column `x + w` on
+    (with the wide character cut by that column blanked) -/
+def splice (r : Row) (x : Nat) (text : Bytes) (w : Nat) (st : Style) : Row :=
+  r.take (headOf r x + widthAt r (headOf r x)) ++ charCells text w st ++
+    (fixAt r (x + w) st).drop (x + w)
 
-end Lemmas
+theorem cutRow_eq (p : Row) (W : Nat) (st : Style) : cutRow p W st = (fixAt p W st).take W := rfl
 
-/-- **C03 (6), "never half-visible" for the span policy on a continuation cell**, when no
-    character is wider than two cells. (For wider characters it fails in the model, see
-    `putKeep_width3_not_wf_example`.) -/
-theorem Row.putKeep_wf (r : Row) (x : Nat) (text : Bytes) (w : Nat) (st : Style)
-    (hwf : rowWF r = true) (hn : narrow r) (hc : contAt r x = true) (hw : 1 ≤ w) (hw2 : w ≤ 2)
-    (hx : x + w ≤ r.length) :
-    rowWF (Row.putKeep r x text w st) = true := by
-  obtain ⟨t, wd, s', hch, hwd1, hxe, hlen, hwd⟩ := wf_head hwf (contAt_lt hc)
+/-- on a well-formed row, with the cursor on a continuation cell, `Row.putKeep` is the spliced
+    row with the character cut by the right edge blanked, cut back to the row length. (When the
+    kept character reaches beyond column `x + w`, its cells right of that column are the
+    character "cut by column `x + w`", so the blanks of the definition are those of `fixAt`.) -/
+theorem putKeep_eq {r : Row} (hwf : rowWF r = true) {x : Nat} (hc : contAt r x = true)
+    (text : Bytes) (w : Nat) (st : Style) :
+    Row.putKeep r x text w st = (fixAt (splice r x text w st) r.length st).take r.length := by
+  obtain ⟨t, wd, s', hch, hwd1, hx, hlen, hwd⟩ := wf_head hwf (contAt_lt hc)
   obtain ⟨_, _, hcs, hend⟩ := wf_ch hwf hch
-  have hwd2 : wd ≤ 2 := narrow_head hn hch
   have hle := headOf_le r x
   have hne : headOf r x ≠ x := by
     intro e
     have := contAt_ch hch
     rw [e, hc] at this; cases this
-  -- the row after blanking the character cut by column `x + w`
-  have h1wf : rowWF (fixAt r (x + w) st) = true := fixAt_wf hwf _ _
-  have h1r : contAt (fixAt r (x + w) st) (x + w) = false := contAt_fixAt_self hwf _ _
-  have h1e : contAt (fixAt r (x + w) st) (headOf r x + wd) = false := by
-    cases h : contAt (fixAt r (x + w) st) (headOf r x + wd) with
-    | false => rfl
-    | true => have := contAt_fixAt_imp h; rw [hend] at this; cases this
-  have h1n : narrow (fixAt r (x + w) st) := narrow_of_mem hn st (fixAt_mem r _ st)
-  have h1l : (fixAt r (x + w) st).length = r.length := length_fixAt _ _ _
-  rw [putKeep_eq, hwd]
-  generalize fixAt r (x + w) st = r1 at h1wf h1r h1e h1n h1l
-  -- the spliced row, one cell too long
-  have h2wf : rowWF (r1.take (headOf r x + wd) ++ charCells text w st ++ r1.drop (x + w)) = true :=
-    wf_append (wf_append (wf_take h1wf h1e) (wf_charCells _ _ _ hw)) (wf_drop h1wf h1r)
-  have h2n : narrow (r1.take (headOf r x + wd) ++ charCells text w st ++ r1.drop (x + w)) := by
-    intro c hc' t' cw' hg
-    simp only [List.mem_append] at hc'
-    rcases hc' with (hc' | hc') | hc'
-    · exact h1n c (List.mem_of_mem_take hc') t' cw' hg
-    · simp only [charCells, List.mem_cons, List.mem_replicate] at hc'
-      rcases hc' with hc' | hc'
-      · rw [hc'] at hg
-        simp only [Glyph.ch.injEq] at hg
-        omega
-      · rw [hc'.2] at hg; cases hg
-    · exact h1n c (List.mem_of_mem_drop hc') t' cw' hg
-  have h2l : (r1.take (headOf r x + wd) ++ charCells text w st ++ r1.drop (x + w)).length
-      = r.length + 1 := by
-    simp only [List.length_take, List.length_append, List.length_drop, length_charCells _ _ _ hw, h1l]
-    omega
-  generalize r1.take (headOf r x + wd) ++ charCells text w st ++ r1.drop (x + w) = r2 at h2wf h2n h2l
-  cases hlast : contAt r2 r.length with
-  | false =>
-    rw [fixTail_of_wf (wf_take h2wf hlast)]
-    exact wf_take h2wf hlast
-  | true =>
-    -- the cut falls inside a double-width character: its head is the last remaining cell
-    obtain ⟨t2, w2, s2, hch2, _, hx2, _, _⟩ := wf_head h2wf (contAt_lt hlast)
-    have hw22 : w2 ≤ 2 := narrow_head h2n hch2
-    have hle2 := headOf_le r2 r.length
-    have hne2 : headOf r2 r.length ≠ r.length := by
-      intro e
-      have := contAt_ch hch2
-      rw [e, hlast] at this; cases this
-    have hhd : headOf r2 r.length = r.length - 1 := by omega
-    have hw2e : w2 = 2 := by omega
-    rw [hhd] at hch2
-    have hpos : 1 ≤ r.length := by omega
-    have hft : fixTail (r2.take r.length) st = r2.take (r.length - 1) ++ [blank st] := by
-      unfold fixTail
-      have hl : (r2.take r.length).length = r.length := by rw [List.length_take]; omega
-      have hg : (r2.take r.length).getLast? = some ⟨.ch t2 w2, s2⟩ := by
-        rw [List.getLast?_eq_getElem?, hl, List.getElem?_take, if_pos (by omega), hch2]
-      rw [hg]
-      simp only [hw2e, show (2 : Nat) > 1 by omega, if_true]
-      rw [List.dropLast_eq_take, hl, List.take_take]
-      congr 2
-      omega
-    rw [hft]
-    apply wf_append (wf_take h2wf (contAt_ch hch2))
-    exact blankRow_wf 1 st
+  have htail : (if x + w < headOf r x + wd
+      then List.replicate (headOf r x + wd - (x + w)) (blank st) ++ r.drop (headOf r x + wd)
+      else (if contAt r (x + w) then blankCharAt r (x + w) st else r).drop (x + w)) =
+      (fixAt r (x + w) st).drop (x + w) := by
+    split
+    · next hlt =>
+      have hcb : contAt r (x + w) = true := hcs (x + w) (by omega) hlt
+      have hhb : headOf r (x + w) = headOf r x := wf_headOf_eq hwf hch (by omega) hlt
+      rw [fixAt_of_cont hcb, hhb, hwd]
+      apply List.ext_getElem?
+      intro k
+      rw [List.getElem?_drop]
+      by_cases hk : x + w + k < r.length
+      · rw [getElem?_blankRange hk]
+        by_cases h1 : k < headOf r x + wd - (x + w)
+        · rw [List.getElem?_append_left (by rw [List.length_replicate]; exact h1),
+            List.getElem?_replicate, if_pos h1, if_pos ⟨by omega, by omega⟩]
+        · rw [List.getElem?_append_right (by rw [List.length_replicate]; omega),
+            List.length_replicate, List.getElem?_drop, if_neg (by omega)]
+          congr 1; omega
+      · rw [List.getElem?_eq_none (by
+            rw [List.length_append, List.length_replicate, List.length_drop]; omega),
+          List.getElem?_eq_none (by rw [length_blankRange]; omega)]
+    · rfl
+  rw [← cutRow_eq]
+  unfold Row.putKeep splice
+  simp only [hwd]
+  rw [htail]
 
-/-- **"Never half-visible", whole screen, span policy**, for width functions bounded by 2: if no
-    stored character is wider than two cells and the new one is not either, `Scr.put .keep`
-    preserves the screen invariant, also when the cursor stands on a continuation cell. -/
-theorem put_keep_inv_narrow (s : Scr) (text : Bytes) (w0 : Nat) (hinv : s.inv = true)
-    (hn : ∀ r ∈ s.grid, narrow r) (hw0 : w0 ≤ 2) :
+theorem length_splice {r : Row} {x : Nat} (text : Bytes) {w : Nat} (st : Style) (hw : 1 ≤ w)
+    {e : Nat} (he : headOf r x + widthAt r (headOf r x) = e) :
+    (splice r x text w st).length = min e r.length + w + (r.length - (x + w)) := by
+  unfold splice
+  rw [he]
+  simp only [List.length_append, List.length_take, List.length_drop, length_charCells _ _ _ hw,
+    length_fixAt]
+
+/-- the spliced row, cell by cell (also beyond its end) -/
+theorem getElem?_splice {r : Row} {x : Nat} (text : Bytes) {w : Nat} (st : Style) (hw : 1 ≤ w)
+    {e : Nat} (he : headOf r x + widthAt r (headOf r x) = e) (hel : e ≤ r.length) (hxe : x < e)
+    (k : Nat) :
+    (splice r x text w st)[k]? =
+      if k < e then r[k]?
+      else if k = e then some ⟨.ch text w, st⟩
+      else if k < e + w then some ⟨.cont, st⟩
+      else (fixAt r (x + w) st)[k - (e - x)]? := by
+  unfold splice
+  rw [he]
+  have hte : (List.take e r).length = e := by rw [List.length_take]; omega
+  by_cases h1 : k < e
+  · rw [if_pos h1, List.getElem?_append_left (by rw [List.length_append, hte]; omega),
+      List.getElem?_append_left (by omega), List.getElem?_take, if_pos h1]
+  · rw [if_neg h1]
+    by_cases h2 : k < e + w
+    · rw [List.getElem?_append_left
+          (by rw [List.length_append, hte, length_charCells _ _ _ hw]; omega),
+        List.getElem?_append_right (by omega), hte, getElem?_charCells _ _ _ _ (by omega)]
+      by_cases h3 : k = e
+      · rw [if_pos h3, if_pos (by omega)]
+      · rw [if_neg h3, if_pos h2, if_neg (by omega)]
+    · rw [if_neg (by omega), if_neg h2,
+        List.getElem?_append_right
+          (by rw [List.length_append, hte, length_charCells _ _ _ hw]; omega),
+        List.length_append, hte, length_charCells _ _ _ hw, List.getElem?_drop]
+      congr 1; omega
+
+theorem splice_wf {r : Row} (hwf : rowWF r = true) {x : Nat} (hc : contAt r x = true)
+    (text : Bytes) {w : Nat} (st : Style) (hw : 1 ≤ w) : rowWF (splice r x text w st) = true := by
+  obtain ⟨t, wd, s', hch, hwd1, hx, hlen, hwd⟩ := wf_head hwf (contAt_lt hc)
+  obtain ⟨_, _, _, hend⟩ := wf_ch hwf hch
+  unfold splice
+  rw [hwd]
+  exact wf_append (wf_append (wf_take hwf hend) (wf_charCells _ _ _ hw))
+    (wf_drop (fixAt_wf hwf _ _) (contAt_fixAt_self hwf _ _))
+
+end Lemmas
+
+/-- `Row.putKeep` keeps the row length, whatever the widths of the characters involved -/
+theorem Row.putKeep_length (r : Row) (x : Nat) (text : Bytes) (w : Nat) (st : Style)
+    (hwf : rowWF r = true) (hc : contAt r x = true) (hw : 1 ≤ w) :
+    (Row.putKeep r x text w st).length = r.length := by
+  obtain ⟨t, wd, s', hch, _, hx, hlen, hwd⟩ := wf_head hwf (contAt_lt hc)
+  rw [putKeep_eq hwf hc text w st, List.length_take, length_fixAt,
+    length_splice text st hw (e := headOf r x + wd) (by rw [hwd])]
+  omega
+
+/-- **C03 (6), "never half-visible" for the span policy on a continuation cell**, for characters
+    of EVERY width (kept, written, or cut by the right edge): the new row is well formed. -/
+theorem Row.putKeep_wf (r : Row) (x : Nat) (text : Bytes) (w : Nat) (st : Style)
+    (hwf : rowWF r = true) (hc : contAt r x = true) (hw : 1 ≤ w) :
+    rowWF (Row.putKeep r x text w st) = true := by
+  rw [putKeep_eq hwf hc text w st]
+  exact wf_take (fixAt_wf (splice_wf hwf hc text st hw) _ _)
+    (contAt_fixAt_self (splice_wf hwf hc text st hw) _ _)
+
+/-- **C03 (6), span policy on a continuation cell, cell by cell**, for characters of every
+    width. Let `e` be the first column after the wide character under the cursor; the rest of the
+    row is shifted right by `e - x` cells. Then the new row is: the old row up to column `e` (the
+    kept character and everything to its left, unchanged); the text at `e … e+w-1` — unless it
+    does not fit any more (`r.length < e + w`), then blanks; then the old cells from column
+    `x + w` on, shifted — where a character cut by column `x + w` (the kept character itself
+    when it is wider than `x + w - head`, or the next one) and the character that the shift
+    pushes across the right edge are blanked whole. -/
+theorem Row.putKeep_cell (r : Row) (x : Nat) (text : Bytes) (w : Nat) (st : Style)
+    (hwf : rowWF r = true) (hc : contAt r x = true) (hw : 1 ≤ w) (i : Nat) (hi : i < r.length) :
+    (Row.putKeep r x text w st)[i]? =
+      (let e := headOf r x + widthAt r (headOf r x)
+       if i < e then r[i]?
+       else if i < e + w then
+         (if r.length < e + w then some (blank st)
+          else if i = e then some ⟨.ch text w, st⟩ else some ⟨.cont, st⟩)
+       else if cutBy r (i - (e - x)) (x + w) ∨ cutBy r (i - (e - x)) (r.length - (e - x))
+         then some (blank st)
+       else r[i - (e - x)]?) := by
+  obtain ⟨t, wd, s', hch, hwd1, hx, hlen, hwd⟩ := wf_head hwf (contAt_lt hc)
+  obtain ⟨_, _, _, hend⟩ := wf_ch hwf hch
+  have hpwf := splice_wf hwf hc text st hw
+  have he : headOf r x + widthAt r (headOf r x) = headOf r x + wd := by rw [hwd]
+  have hpl := length_splice (r := r) (x := x) text st hw he
+  have hget := getElem?_splice (r := r) (x := x) text st hw he hlen hx
+  have hip : i < (splice r x text w st).length := by rw [hpl]; omega
+  rw [putKeep_eq hwf hc text w st, List.getElem?_take, if_pos hi, getElem?_fixAt hip]
+  simp only [hwd]
+  generalize splice r x text w st = p at hpwf hpl hget hip
+  generalize headOf r x + wd = e at hx hlen hend hpl hget
+  -- a character of the spliced row covering column `i` is cut by the right edge iff it ends
+  -- beyond it
+  have hcut : ∀ h t' cw s2, p[h]? = some ⟨.ch t' cw, s2⟩ → h ≤ i → i < h + cw →
+      (inChar p r.length i ↔ r.length < h + cw) := by
+    intro h t' cw s2 hph h1 h2
+    rw [inChar_iff_cutBy hpwf hip]
+    unfold cutBy
+    rw [wf_headOf_eq hpwf hph h1 h2, widthAt_ch hph]
+    have := (wf_ch hpwf hph).1
+    constructor
+    · intro ⟨_, b⟩; omega
+    · intro b; exact ⟨by omega, by omega⟩
+  by_cases h1 : i < e
+  · rw [if_pos h1]
+    obtain ⟨t2, w2, s2, hch2, _, hx2, _, _⟩ := wf_head hwf hi
+    have hle2 := headOf_le r i
+    have hend2 : headOf r i + w2 ≤ e := by
+      false_or_by_contra
+      have := (wf_ch hwf hch2).2.2.1 e (by omega) (by omega)
+      rw [this] at hend; cases hend
+    have hph : p[headOf r i]? = some ⟨.ch t2 w2, s2⟩ := by
+      rw [hget, if_pos (by omega)]; exact hch2
+    have hn : ¬ inChar p r.length i := fun hh => by
+      have := (hcut _ _ _ _ hph hle2 hx2).1 hh; omega
+    rw [if_neg hn, hget, if_pos h1]
+  · rw [if_neg h1]
+    by_cases h2 : i < e + w
+    · rw [if_pos h2]
+      have hph : p[e]? = some ⟨.ch text w, st⟩ := by rw [hget, if_neg (by omega), if_pos rfl]
+      have hk := hcut _ _ _ _ hph (by omega) h2
+      by_cases h3 : r.length < e + w
+      · rw [if_pos h3, if_pos (hk.2 h3)]
+      · have hn : ¬ inChar p r.length i := fun hh => h3 (hk.1 hh)
+        rw [if_neg h3, if_neg hn, hget, if_neg h1]
+        by_cases h4 : i = e
+        · rw [if_pos h4, if_pos h4]
+        · rw [if_neg h4, if_neg h4, if_pos h2]
+    · rw [if_neg h2]
+      have hj : i - (e - x) < r.length := by omega
+      have hpi : p[i]? = (fixAt r (x + w) st)[i - (e - x)]? := by
+        rw [hget, if_neg h1, if_neg (by omega), if_neg h2]
+      rw [getElem?_fixAt hj] at hpi
+      by_cases h3 : cutBy r (i - (e - x)) (x + w)
+      · rw [if_pos (Or.inl h3)]
+        rw [if_pos ((inChar_iff_cutBy hwf hj).2 h3)] at hpi
+        rw [hpi]; split <;> rfl
+      · rw [if_neg (fun hh => h3 ((inChar_iff_cutBy hwf hj).1 hh))] at hpi
+        obtain ⟨t2, w2, s2, hch2, _, hx2, _, hw2⟩ := wf_head hwf hj
+        have hle2 := headOf_le r (i - (e - x))
+        have hge : x + w ≤ headOf r (i - (e - x)) := by
+          false_or_by_contra
+          apply h3
+          unfold cutBy; rw [hw2]; exact ⟨by omega, by omega⟩
+        have hhd : (fixAt r (x + w) st)[headOf r (i - (e - x))]? = some ⟨.ch t2 w2, s2⟩ := by
+          rw [getElem?_fixAt (by omega), if_neg, hch2]
+          intro hin
+          have := (inChar_iff_cutBy hwf (by omega)).1 hin
+          unfold cutBy at this
+          rw [headOf_of_not_cont (contAt_ch hch2)] at this
+          omega
+        have hph : p[headOf r (i - (e - x)) + (e - x)]? = some ⟨.ch t2 w2, s2⟩ := by
+          rw [hget, if_neg (by omega), if_neg (by omega), if_neg (by omega), Nat.add_sub_cancel]
+          exact hhd
+        have hk := hcut _ _ _ _ hph (by omega) (by omega)
+        have hcb : cutBy r (i - (e - x)) (r.length - (e - x)) ↔
+            r.length < headOf r (i - (e - x)) + (e - x) + w2 := by
+          unfold cutBy; rw [hw2]
+          constructor
+          · intro ⟨_, b⟩; omega
+          · intro b; exact ⟨by omega, by omega⟩
+        by_cases h4 : cutBy r (i - (e - x)) (r.length - (e - x))
+        · rw [if_pos (Or.inr h4), if_pos (hk.2 (hcb.1 h4))]
+        · have hn : ¬ inChar p r.length i := fun hh => h4 (hcb.2 (hk.1 hh))
+          have hor : ¬ (cutBy r (i - (e - x)) (x + w) ∨ cutBy r (i - (e - x)) (r.length - (e - x))) :=
+            fun hh => hh.elim h3 h4
+          rw [if_neg hor, if_neg hn, hpi]
+
+/-- (6) the wide character under the cursor is kept, and so is everything to its left — for a
+    kept character of every width -/
+theorem Row.putKeep_kept (r : Row) (x : Nat) (text : Bytes) (w : Nat) (st : Style)
+    (hwf : rowWF r = true) (hc : contAt r x = true) (hw : 1 ≤ w) (i : Nat)
+    (hi : i < headOf r x + widthAt r (headOf r x)) :
+    (Row.putKeep r x text w st)[i]? = r[i]? := by
+  obtain ⟨t, wd, s', hch, hwd1, hx, hlen, hwd⟩ := wf_head hwf (contAt_lt hc)
+  rw [Row.putKeep_cell r x text w st hwf hc hw i (by rw [hwd] at hi; omega)]
+  simp only [if_pos hi]
+
+/-- (6) the written character: when it still fits after the kept character, its cells are at
+    columns `e … e+w-1` in the current style -/
+theorem Row.putKeep_text (r : Row) (x : Nat) (text : Bytes) (w : Nat) (st : Style)
+    (hwf : rowWF r = true) (hc : contAt r x = true) (hw : 1 ≤ w)
+    (hfit : headOf r x + widthAt r (headOf r x) + w ≤ r.length) (k : Nat) (hk : k < w) :
+    (Row.putKeep r x text w st)[headOf r x + widthAt r (headOf r x) + k]? =
+      some (if k = 0 then ⟨.ch text w, st⟩ else ⟨.cont, st⟩) := by
+  rw [Row.putKeep_cell r x text w st hwf hc hw _ (by omega)]
+  simp only
+  rw [if_neg (by omega), if_pos (by omega), if_neg (by omega)]
+  by_cases h0 : k = 0
+  · rw [if_pos (by omega), if_pos h0]
+  · rw [if_neg (by omega), if_neg h0]
+
+/-- (6) at screen level: under the span policy, with the cursor on a continuation cell and room
+    for the character after the cursor column, the cursor row becomes `Row.putKeep …` and the
+    cursor goes to the column after the inserted text (`e + w`, where `e` is the first column
+    after the kept wide character), wrapping or clamping at the right edge like in section 2. -/
+theorem put_keep_on_cont (s : Scr) (text : Bytes) (w0 : Nat) (hinv : s.inv = true)
+    (hc : contAt (s.row s.cy) s.cx = true) (hfit : s.cx + effW s w0 ≤ s.w) :
+    Scr.put .keep s text w0 =
+      (let e := headOf (s.row s.cy) s.cx + widthAt (s.row s.cy) (headOf (s.row s.cy) s.cx)
+       let s1 : Scr :=
+         { s with grid := s.grid.set s.cy
+                    (Row.putKeep (s.row s.cy) s.cx (effText s text w0) (effW s w0) s.sty) }
+       if e + effW s w0 < s.w then { s1 with cx := e + effW s w0 }
+       else if s.wrap then ({ s1 with cx := e + effW s w0 - s.w } : Scr).lineDown
+       else { s1 with cx := s.w - 1 }) := by
+  obtain ⟨_, _, hg, hrows, _, hcy, _⟩ := (inv_iff s).1 hinv
+  have hwf := (hrows _ (row_mem s s.cy (by omega))).2
+  obtain ⟨t, wd, s', hch, hwd1, hx, hlen, hwd⟩ := wf_head hwf (contAt_lt hc)
+  have hle := headOf_le (s.row s.cy) s.cx
+  rw [put_eq_putAt_fit _ s text w0 hfit, putAt_eq_finish]
+  have e1 : putAtRow .keep s (effText s text w0) (effW s w0) =
+      Row.putKeep (s.row s.cy) s.cx (effText s text w0) (effW s w0) s.sty := by
+    simp [putAtRow, hc]
+  have e2 : putAtX .keep s (effW s w0) =
+      headOf (s.row s.cy) s.cx + widthAt (s.row s.cy) (headOf (s.row s.cy) s.cx) + effW s w0 := by
+    simp only [putAtX, hc, Bool.true_and, beq_self_eq_true, if_true, hwd]
+    omega
+  rw [e1, e2]
+  rfl
+
+/-! ### `Scr.put` under the span policy keeps the screen invariant, for every width -/
+
+/-- **"Never half-visible", whole screen, span policy**, for EVERY nominal width and whatever
+    the widths of the stored characters: `Scr.put .keep` preserves the screen invariant, also
+    when the cursor stands on a continuation cell. -/
+theorem put_keep_inv (s : Scr) (text : Bytes) (w0 : Nat) (hinv : s.inv = true) :
     (Scr.put .keep s text w0).inv = true := by
-  -- `putAt .keep` preserves the invariant from any well-formed narrow state where the text fits
-  have key : ∀ (s : Scr) (text : Bytes) (w : Nat), s.inv = true → (∀ r ∈ s.grid, narrow r) →
-      1 ≤ w → w ≤ 2 → s.cx + w ≤ s.w → (putAt .keep s text w).inv = true := by
-    intro s text w h hn hw hw2 hfit
+  -- `putAt .keep` preserves the invariant from any well-formed state where the text fits
+  have key : ∀ (s : Scr) (text : Bytes) (w : Nat), s.inv = true →
+      1 ≤ w → s.cx + w ≤ s.w → (putAt .keep s text w).inv = true := by
+    intro s text w h hw hfit
     cases hc : contAt (s.row s.cy) s.cx with
     | false => rw [putAt_keep_eq_blank s text w hc]; exact putAt_blank_inv s text w h hw hfit
     | true =>
@@ -1972,7 +1923,6 @@ theorem put_keep_inv_narrow (s : Scr) (text : Bytes) (w0 : Nat) (hinv : s.inv = 
       have hmem := row_mem s s.cy (by omega)
       obtain ⟨hl, hwf⟩ := d _ hmem
       obtain ⟨t, wd, s', hch, hwd1, hxe, hlen, hwd⟩ := wf_head hwf (contAt_lt hc)
-      have hwd2 : wd ≤ 2 := narrow_head (hn _ hmem) hch
       have hle := headOf_le (s.row s.cy) s.cx
       have hne : headOf (s.row s.cy) s.cx ≠ s.cx := by
         intro e
@@ -1991,31 +1941,23 @@ theorem put_keep_inv_narrow (s : Scr) (text : Bytes) (w0 : Nat) (hinv : s.inv = 
           · exact d r hr
           · rw [hr, e1]
             exact ⟨by rw [Row.putKeep_length _ _ _ _ _ hwf hc hw]; exact hl,
-              Row.putKeep_wf _ _ _ _ _ hwf (hn _ hmem) hc hw hw2 (by omega)⟩
+              Row.putKeep_wf _ _ _ _ _ hwf hc hw⟩
       · show putAtX .keep s w < s.w + s.w
         simp only [putAtX, hc, Bool.true_and, beq_self_eq_true, if_true, hwd]
         omega
   obtain ⟨a, b, c, d, e, f, g, h', i, j⟩ := (inv_iff s).1 hinv
   have hle := effW_le s w0 a
   have hpos := effW_pos s w0
-  have hw2 : effW s w0 ≤ 2 := by unfold effW; split <;> omega
   by_cases hfit : s.cx + effW s w0 ≤ s.w
   · rw [put_eq_putAt_fit _ s text w0 hfit]
-    exact key s _ _ hinv hn hpos hw2 hfit
+    exact key s _ _ hinv hpos hfit
   · by_cases hwrap : s.wrap = true
     · rw [put_eq_putAt_wrap _ s text w0 (by omega) hwrap]
       have h0 : ({ s with cx := 0 } : Scr).lineDown.inv = true :=
         lineDown_inv _ ((inv_iff _).2 ⟨a, b, c, d, a, f, g, h', i, j⟩)
       obtain ⟨f1, _, f3, _⟩ := lineDown_fields ({ s with cx := 0 } : Scr)
-      refine key ({ s with cx := 0 } : Scr).lineDown (effText s text w0) (effW s w0) h0 ?_ hpos hw2 ?_
-      · intro r hr
-        rcases lineDown_mem ({ s with cx := 0 } : Scr) r hr with hr | hr
-        · exact hn r hr
-        · rw [hr]
-          intro c hc t cw hg
-          rw [(List.mem_replicate.1 hc).2] at hg
-          simp [blank] at hg; omega
-      · rw [f1, f3]; show 0 + effW s w0 ≤ s.w; omega
+      refine key ({ s with cx := 0 } : Scr).lineDown (effText s text w0) (effW s w0) h0 hpos ?_
+      rw [f1, f3]; show 0 + effW s w0 ≤ s.w; omega
     · have hwrap' : s.wrap = false := by simpa using hwrap
       rw [put_eq_putAt_nowrap _ s text w0 (by omega) hwrap']
       have hi' : ({ s with cx := s.w - effW s w0 } : Scr).inv = true :=
@@ -2023,7 +1965,16 @@ theorem put_keep_inv_narrow (s : Scr) (text : Bytes) (w0 : Nat) (hinv : s.inv = 
       have hf' : ({ s with cx := s.w - effW s w0 } : Scr).cx + effW s w0 ≤
           ({ s with cx := s.w - effW s w0 } : Scr).w := by
         show s.w - effW s w0 + effW s w0 ≤ s.w; omega
-      exact key { s with cx := s.w - effW s w0 } (effText s text w0) (effW s w0) hi' hn hpos hw2 hf'
+      exact key { s with cx := s.w - effW s w0 } (effText s text w0) (effW s w0) hi' hpos hf'
+
+/-- no character of the row is wider than two cells -/
+def narrow (r : Row) : Prop := ∀ c ∈ r, ∀ t cw, c.g = .ch t cw → cw ≤ 2
+
+/-- the earlier form of `put_keep_inv`, for width functions bounded by 2 (the hypotheses `hn`,
+    `hw0` are not needed any more; kept under its name for reference) -/
+theorem put_keep_inv_narrow (s : Scr) (text : Bytes) (w0 : Nat) (hinv : s.inv = true)
+    (_hn : ∀ r ∈ s.grid, narrow r) (_hw0 : w0 ≤ 2) :
+    (Scr.put .keep s text w0).inv = true := put_keep_inv s text w0 hinv
 
 /-! ## Terminal level: `Tok.text` -/
 
@@ -2044,7 +1995,7 @@ theorem apply_text (cw : Nat → Nat) (t : Term) (stored : Bytes) (cp : Nat) :
   unfold Term.apply Term.setScr Term.scr
   cases h : t.onAlt <;> simp
 
-/-! ## Non-vacuity examples, the counterexample for (5), a doubt about `Row.putKeep` -/
+/-! ## Non-vacuity examples, the counterexample for (5), width-3 examples for `Row.putKeep` -/
 
 section Examples
 
@@ -2105,14 +2056,27 @@ theorem put_keep_ne_blank_example :
     Scr.put .keep exScr zi 2 ≠ Scr.put .blank exScr zi 2 := by
   decide
 
-/-- **Doubt about the model** (only for width functions that return 3 or more): under the span
-    policy `Row.putKeep` shifts the rest of the row right and `fixTail` repairs only a wide
-    character whose *head* is the last cell. A character of width 3 that loses one cell at the
-    right edge stays half-visible, so `rowWF` (and `Scr.inv`) is not preserved. With all widths
-    ≤ 2 no such case exists (checked exhaustively for rows up to length 7 outside this file). -/
-theorem putKeep_width3_not_wf_example :
+/-- Characters of width 3 under the span policy: the character that the insertion pushes across
+    the right edge is blanked whole, and the row stays well formed (`Row.putKeep_wf`). With the
+    earlier `Row.putKeep` (whose `fixTail` repaired only a wide character whose *head* was the
+    last cell) the same call left a half-visible character and an ill-formed row; the example
+    `putKeep_width3_not_wf_example` that recorded this has been replaced by the present one. -/
+theorem putKeep_width3_wf_example :
     let r : Row := [⟨.ch [0x41] 2, d⟩, ⟨.cont, d⟩, ⟨.ch [0x42] 3, d⟩, ⟨.cont, d⟩, ⟨.cont, d⟩]
-    rowWF r = true ∧ contAt r 1 = true ∧ rowWF (Row.putKeep r 1 [0x43] 1 d) = false := by
+    rowWF r = true ∧ contAt r 1 = true ∧
+    Row.putKeep r 1 [0x43] 1 d = [⟨.ch [0x41] 2, d⟩, ⟨.cont, d⟩, ⟨.ch [0x43] 1, d⟩, blank d, blank d] ∧
+    rowWF (Row.putKeep r 1 [0x43] 1 d) = true := by
+  decide
+
+/-- a kept character of width 3 with the cursor on its second cell and a write of width 1 (which
+    addresses only that cell): the character is kept whole, the text goes after it, and the
+    third cell of the kept character — right of the addressed range — is handed on as a blank
+    before the shifted rest of the row -/
+theorem putKeep_kept_width3_example :
+    let r : Row := [⟨.ch [0x42] 3, d⟩, ⟨.cont, d⟩, ⟨.cont, d⟩, ⟨.ch [0x61] 1, d⟩, ⟨.ch [0x62] 1, d⟩,
+      ⟨.ch [0x63] 1, d⟩]
+    Row.putKeep r 1 [0x43] 1 d =
+      [⟨.ch [0x42] 3, d⟩, ⟨.cont, d⟩, ⟨.cont, d⟩, ⟨.ch [0x43] 1, d⟩, blank d, ⟨.ch [0x61] 1, d⟩] := by
   decide
 
 end Examples
@@ -2146,11 +2110,14 @@ end TM.C03
 #print axioms TM.C03.put_keep_ne_blank_example
 #print axioms TM.C03.put_blank_inv
 #print axioms TM.C03.put_keep_inv_off_cont
+#print axioms TM.C03.put_keep_inv
 #print axioms TM.C03.put_keep_inv_narrow
 #print axioms TM.C03.Row.putKeep_length
 #print axioms TM.C03.Row.putKeep_cell
 #print axioms TM.C03.Row.putKeep_kept
+#print axioms TM.C03.Row.putKeep_text
 #print axioms TM.C03.Row.putKeep_wf
 #print axioms TM.C03.put_keep_on_cont
-#print axioms TM.C03.putKeep_width3_not_wf_example
+#print axioms TM.C03.putKeep_width3_wf_example
+#print axioms TM.C03.putKeep_kept_width3_example
 #print axioms TM.C03.apply_text
